@@ -25,6 +25,7 @@ import Parsley.Spec.Conforms
 namespace Parsley.C10
 open Parsley Parsley.TC Parsley.TC.Spec
 open Parsley.CatalogRules (Doc Node Nodes PageOpts CatOpts Mutation Where kType kPages kCount kParent kMediaBox
+  pageDict nodeDict catalogDict arrOf optEnt
   kCropBox kLastModified kRotate kTabs kUserUnit kID kAnnots kVersion kPageMode kPageLayout kLang kNeedsRendering
   kPageLabels kDests kEmbeddedFiles kOutlines kMetadata kOpenAction nCatalog nPage nTemplate pageModes pageLayouts
   tabOrders)
@@ -275,6 +276,600 @@ theorem conforms_of_invariant (g : Graph) (ctx : Ctx) (S : Obj → Chk → Prop)
   induction n generalizing o c with
   | zero => rfl
   | succ n ih => exact closed o c h (conf g ctx n) (fun o' c' h' => ih o' c' h')
+
+/-- root 1 -> node 2 -> node 3 -> page 4, template 5; page 6 below 2; page 7 below 1 -/
+def wDoc3 : Doc :=
+  ⟨CatOpts.none, 1, 4, Nodes.ofList
+    [.pages 2 3 (Nodes.ofList [.pages 3 2 (Nodes.ofList [.page 4 PageOpts.none, .tmpl 5 PageOpts.none]),
+      .page 6 PageOpts.none]), .page 7 PageOpts.none]⟩
+
+/-! generic unfolding lemmas -/
+
+theorem value_nonref (g : Graph) (o : Obj) (h : o.isRef = false) : value g o = o := by
+  cases o <;> simp_all [value, deref, Obj.isRef]
+
+theorem value_ref (g : Graph) (a b : Nat) (v : Obj) (hl : g.lookup (a, b) = some v) (hv : v.isRef = false) :
+    value g (.ref a b) = v := by
+  have hg : g.length = (g.length - 1) + 1 := by
+    cases g with
+    | nil => simp [Graph.lookup] at hl
+    | cons x t => simp
+  unfold value
+  rw [hg]
+  simp only [deref, hl]
+  cases v <;> simp_all [deref, Obj.isRef]
+
+theorem confStep_eq (g : Graph) (ctx : Ctx) (f : Obj → Chk → Bool) (o : Obj) (c r : Chk)
+    (hres : resolve ctx c = some r) :
+    confStep g ctx f o c = (indOK o r.attr.ind && predOK r.attr.pred (value g o) && shapeOK f o (value g o) r) := by
+  simp [confStep, hres]
+
+theorem ObjL.get_isSome_keys : ∀ (kvs : ObjL) (k : Bytes), (kvs.get k).isSome = kvs.keys.contains k
+  | .nil, k => by simp [ObjL.get, ObjL.keys, ObjL.toList]
+  | .cons k' v t, k => by
+    have ih := ObjL.get_isSome_keys t k
+    simp only [ObjL.keys, ObjL.toList, List.map_cons, List.contains_cons] at ih ⊢
+    simp only [ObjL.get]
+    by_cases h : k' = k
+    · simp [h]
+    · have h' : (k == k') = false := by simpa using fun e => h e.symm
+      simp only [h, if_false, h', Bool.false_or]
+      exact ih
+
+/-- a dictionary type holds of a dictionary when the required keys are present (a statement about keys only)
+    and every present value passes the entry found for its key -/
+theorem entsOK_of (f : Obj → Chk → Bool) (kvs : ObjL) (ents : ChkL)
+    (hreq : (ents.toList.all fun e => e.2.1 != .required || kvs.keys.contains e.1) = true)
+    (hval : ∀ e ∈ ents.toList, ∀ v, kvs.get e.1 = some v → e.2.1 ≠ .forbidden ∧ f v e.2.2 = true) :
+    ents.toList.all (entOK f kvs) = true := by
+  rw [List.all_eq_true] at hreq ⊢
+  intro e he
+  have h1 := hreq e he
+  have h2 := hval e he
+  unfold entOK
+  cases hg : kvs.get e.1 with
+  | none =>
+    have : kvs.keys.contains e.1 = false := by rw [← ObjL.get_isSome_keys, hg]; rfl
+    cases ho : e.2.1 <;> simp_all
+  | some v =>
+    have := h2 v hg
+    cases ho : e.2.1 <;> simp_all
+
+
+theorem findEnt_of_mem : ∀ (ents : ChkL) (e : Bytes × KeySpec × Chk), e ∈ ents.toList →
+    (ents.toList.map (·.1)).Nodup → findEnt ents e.1 = some (e.2.1, e.2.2)
+  | .nil, e, h, _ => by simp [ChkL.toList] at h
+  | .cons k o c t, e, h, hnd => by
+    simp only [ChkL.toList, List.mem_cons] at h
+    simp only [ChkL.toList, List.map_cons, List.nodup_cons] at hnd
+    unfold findEnt
+    rcases h with h | h
+    · subst h; simp
+    · have hne : k ≠ e.1 := by
+        intro hk; apply hnd.1; rw [hk]; exact List.mem_map_of_mem h
+      simp only [hne, if_false]
+      exact findEnt_of_mem t e h hnd.2
+
+def keysNodup (ents : ChkL) : Bool :=
+  let ks := ents.toList.map (·.1)
+  (List.range ks.length).all fun i => (List.range i).all fun j => ks[i]? != ks[j]?
+
+theorem conf_dict (g : Graph) (ctx : Ctx) (f : Obj → Chk → Bool) (o c : Obj) (chk : Chk) (a : Attr) (ents : ChkL)
+    (kvs : ObjL)
+    (hres : resolve ctx chk = some (.dict a ents)) (hv : value g o = .dict kvs)
+    (hi : indOK o a.ind = true) (hp : a.pred = none)
+    (hnd : (ents.toList.map (·.1)).Nodup)
+    (hreq : (ents.toList.all fun e => e.2.1 != .required || kvs.keys.contains e.1) = true)
+    (hval : ∀ k v, kvs.get k = some v →
+      ∀ o' c', findEnt ents k = some (o', c') → o' ≠ .forbidden ∧ f v c' = true) :
+    confStep g ctx f o chk = true := by
+  rw [confStep_eq g ctx f o chk _ hres]
+  simp only [Chk.attr, hi, hp, predOK, hv, shapeOK, Bool.true_and]
+  apply entsOK_of f kvs ents hreq
+  intro e he v hg
+  exact hval e.1 v hg e.2.1 e.2.2 (findEnt_of_mem ents e he hnd)
+
+theorem conf_array (g : Graph) (ctx : Ctx) (f : Obj → Chk → Bool) (o : Obj) (chk : Chk) (a : Attr) (e : Chk)
+    (xs : ObjL)
+    (hres : resolve ctx chk = some (.array a e none)) (hv : value g o = .arr xs)
+    (hi : indOK o a.ind = true) (hp : a.pred = none)
+    (hall : ∀ x ∈ xs.vals, f x e = true) :
+    confStep g ctx f o chk = true := by
+  rw [confStep_eq g ctx f o chk _ hres]
+  simp only [Chk.attr, hi, hp, predOK, hv, shapeOK, Bool.true_and, List.all_eq_true]
+  exact hall
+
+theorem conf_disj (g : Graph) (ctx : Ctx) (f : Obj → Chk → Bool) (o : Obj) (chk : Chk) (a : Attr) (os : ChkL)
+    (alt : Chk)
+    (hres : resolve ctx chk = some (.disj a os))
+    (hi : indOK o a.ind = true) (hp : a.pred = none)
+    (hm : alt ∈ os.chks) (hf : f o alt = true) :
+    confStep g ctx f o chk = true := by
+  rw [confStep_eq g ctx f o chk _ hres]
+  simp only [Chk.attr, hi, hp, predOK, shapeOK, Bool.true_and, List.any_eq_true]
+  exact ⟨alt, hm, hf⟩
+
+theorem conf_prim (g : Graph) (ctx : Ctx) (f : Obj → Chk → Bool) (o : Obj) (chk : Chk) (a : Attr) (p : Prim)
+    (hres : resolve ctx chk = some (.prim a p)) (hnr : o.isRef = false)
+    (h : (indOK o a.ind && predOK a.pred o && primOK o p) = true) :
+    confStep g ctx f o chk = true := by
+  rw [confStep_eq g ctx f o chk _ hres, value_nonref g o hnr]
+  simpa [Chk.attr, shapeOK] using h
+
+theorem conf_any_ref (g : Graph) (ctx : Ctx) (f : Obj → Chk → Bool) (a b : Nat) (chk : Chk) (ind : Ind)
+    (hres : resolve ctx chk = some (.any ⟨none, ind⟩)) (hi : ind ≠ .forbidden) :
+    confStep g ctx f (.ref a b) chk = true := by
+  rw [confStep_eq g ctx f _ chk _ hres]
+  cases ind <;> simp_all [Chk.attr, indOK, predOK, shapeOK, Obj.isRef]
+
+
+/-! ### the invariant for rendered documents -/
+
+def rawEnt (c : Chk) (key : Bytes) : Chk :=
+  match findEnt (entsOf c) key with
+  | some (_, x) => x
+  | none => .named "?"
+def rawElem : Chk → Chk
+  | .array _ e _ => e
+  | _ => .named "?"
+def rawAlts : Chk → List Chk
+  | .disj _ os => os.chks
+  | _ => []
+
+def rootR : Chk := rawEnt shippedCat kPages
+def kidsRR : Chk := rawEnt rootR kKids
+def kidRR : Chk := rawElem kidsRR
+def nodeR : Chk := (rawAlts kidRR).getD 0 (.named "?")
+def kidsNR : Chk := rawEnt nodeR kKids
+def kidNR : Chk := rawElem kidsNR
+def kidC (top : Bool) : Chk := if top then kidRR else kidNR
+def pageC (top : Bool) : Chk := if top then (rawAlts kidRR).getD 1 (.named "?") else (rawAlts kidNR).getD 0 (.named "?")
+def tmplC (top : Bool) : Chk := if top then (rawAlts kidRR).getD 2 (.named "?") else (rawAlts kidNR).getD 2 (.named "?")
+def nodeAlt (top : Bool) : Chk := if top then nodeR else (rawAlts kidNR).getD 1 (.named "?")
+def altFor (top : Bool) : Node → Chk
+  | .page _ _ => pageC top
+  | .tmpl _ _ => tmplC top
+  | .pages _ _ _ => nodeAlt top
+
+/-- `Sub d top p n`: node `n` occurs in the page tree of `d` as a kid of the object numbered `p`
+    (`top`: `p` is the root) -/
+inductive Sub (d : Doc) : Bool → Nat → Node → Prop
+  | top (n : Node) : n ∈ d.kids.toList → Sub d true d.rootId n
+  | deep (b : Bool) (p i : Nat) (c : Int) (kids : Nodes) (n : Node) :
+      Sub d b p (.pages i c kids) → n ∈ kids.toList → Sub d false i n
+
+def plainNode : Node → Prop
+  | .page _ o => o = PageOpts.none
+  | .tmpl _ o => o = PageOpts.none
+  | .pages _ _ _ => True
+
+inductive S (d : Doc) : Obj → Chk → Prop
+  | cat : S d (catalogDict d) shippedCat
+  | catType : S d (.name nCatalog) (rawEnt shippedCat kType)
+  | catPages : S d (.ref d.rootId 0) rootR
+  | rootType : S d (.name kPages) (rawEnt rootR kType)
+  | rootCount : S d (.int d.count) (rawEnt rootR kCount)
+  | rootKids : S d (.arr (arrOf d.kids.refs)) kidsRR
+  | kid (b : Bool) (p : Nat) (n : Node) : Sub d b p n → S d (.ref n.id 0) (kidC b)
+  | alt (b : Bool) (p : Nat) (n : Node) : Sub d b p n → S d (.ref n.id 0) (altFor b n)
+  | pageType (b : Bool) : S d (.name nPage) (rawEnt (pageC b) kType)
+  | pageParent (b : Bool) (p : Nat) : S d (.ref p 0) (rawEnt (pageC b) kParent)
+  | tmplType (b : Bool) : S d (.name nTemplate) (rawEnt (tmplC b) kType)
+  | nodeType : S d (.name kPages) (rawEnt nodeR kType)
+  | nodeCount (c : Int) : S d (.int c) (rawEnt nodeR kCount)
+  | nodeParent (p : Nat) : S d (.ref p 0) (rawEnt nodeR kParent)
+  | nodeKids (b : Bool) (p i : Nat) (c : Int) (kids : Nodes) :
+      Sub d b p (.pages i c kids) → S d (.arr (arrOf kids.refs)) kidsNR
+
+theorem refs_vals : ∀ (ns : Nodes) (x : Obj), x ∈ (arrOf ns.refs).vals → ∃ n ∈ ns.toList, x = .ref n.id 0
+  | .nil, x, h => by simp [Nodes.refs, arrOf, ObjL.vals, ObjL.toList] at h
+  | .cons n t, x, h => by
+    simp only [Nodes.refs, arrOf, ObjL.vals, ObjL.toList, List.map_cons, List.mem_cons] at h
+    rcases h with h | h
+    · exact ⟨n, by simp [Nodes.toList], h⟩
+    · have := refs_vals t x (by simpa [ObjL.vals] using h)
+      rcases this with ⟨m, hm, hx⟩
+      exact ⟨m, by simp [Nodes.toList, hm], hx⟩
+
+
+def dictOfList : List (Bytes × Obj) → ObjL
+  | [] => .nil
+  | (k, v) :: t => .cons k v (dictOfList t)
+
+theorem get_mem : ∀ (l : List (Bytes × Obj)) (k : Bytes) (v : Obj), (dictOfList l).get k = some v → (k, v) ∈ l
+  | [], k, v, h => by simp [dictOfList, ObjL.get] at h
+  | (k', v') :: t, k, v, h => by
+    simp only [dictOfList, ObjL.get] at h
+    split at h
+    · next hk => simp only [Option.some.injEq] at h; subst hk; subst h; simp
+    · exact List.mem_cons_of_mem _ (get_mem t k v h)
+
+theorem hval_list (f : Obj → Chk → Bool) (ents : ChkL) (l : List (Bytes × Obj))
+    (h : ∀ kv ∈ l, ∃ o' c', findEnt ents kv.1 = some (o', c') ∧ o' ≠ .forbidden ∧ f kv.2 c' = true) :
+    ∀ k v, (dictOfList l).get k = some v →
+      ∀ o' c', findEnt ents k = some (o', c') → o' ≠ .forbidden ∧ f v c' = true := by
+  intro k v hg o' c' hf
+  rcases h (k, v) (get_mem l k v hg) with ⟨o'', c'', h1, h2, h3⟩
+  simp only at h1
+  rw [h1] at hf
+  simp only [Option.some.injEq, Prod.mk.injEq] at hf
+  rcases hf with ⟨rfl, rfl⟩
+  exact ⟨h2, h3⟩
+
+def rawAltsL : Chk → ChkL
+  | .disj _ os => os
+  | _ => .nil
+
+/-- closed facts about the regenerated term (kernel evaluation) -/
+theorem F_dicts :
+    resolve shippedCtx shippedCat = some (.dict Attr.dflt (entsOf shippedCat)) ∧
+    resolve shippedCtx rootR = some (.dict Attr.dflt (entsOf rootR)) ∧
+    (∀ b, resolve shippedCtx (nodeAlt b) = some (.dict Attr.dflt (entsOf nodeR))) ∧
+    (∀ b, resolve shippedCtx (pageC b) = some (.dict Attr.dflt (entsOf (pageC b)))) ∧
+    (∀ b, resolve shippedCtx (tmplC b) = some (.dict Attr.dflt (entsOf (tmplC b)))) := by decide +kernel
+
+theorem F_nodup :
+    ((entsOf shippedCat).toList.map (·.1)).Nodup ∧ ((entsOf rootR).toList.map (·.1)).Nodup ∧
+    ((entsOf nodeR).toList.map (·.1)).Nodup ∧ (∀ b, ((entsOf (pageC b)).toList.map (·.1)).Nodup) ∧
+    (∀ b, ((entsOf (tmplC b)).toList.map (·.1)).Nodup) := by decide +kernel
+
+theorem F_arrays :
+    resolve shippedCtx kidsRR = some (.array Attr.dflt kidRR none) ∧
+    resolve shippedCtx kidsNR = some (.array Attr.dflt kidNR none) ∧
+    (∀ b, resolve shippedCtx (kidC b) = some (.disj ⟨none, .required⟩ (rawAltsL (kidC b)))) ∧
+    (∀ b, pageC b ∈ (rawAltsL (kidC b)).chks ∧ tmplC b ∈ (rawAltsL (kidC b)).chks ∧
+          nodeAlt b ∈ (rawAltsL (kidC b)).chks) := by decide +kernel
+
+def leafConf (o : Obj) (chk : Chk) : Bool :=
+  match resolve shippedCtx chk with
+  | some (.prim a p) => indOK o a.ind && predOK a.pred o && primOK o p
+  | _ => false
+
+theorem conf_leaf (g : Graph) (f : Obj → Chk → Bool) (o : Obj) (chk : Chk) (h : leafConf o chk = true)
+    (hnr : o.isRef = false) : confStep g shippedCtx f o chk = true := by
+  unfold leafConf at h
+  split at h
+  · next a p hres => exact conf_prim g shippedCtx f o chk a p hres hnr h
+  · simp at h
+
+def intChk (chk : Chk) : Bool :=
+  match resolve shippedCtx chk with
+  | some (.prim ⟨none, .allowed⟩ .integer) => true
+  | _ => false
+
+theorem conf_int (g : Graph) (f : Obj → Chk → Bool) (i : Int) (chk : Chk) (h : intChk chk = true) :
+    confStep g shippedCtx f (.int i) chk = true := by
+  unfold intChk at h
+  split at h
+  · next hres => exact conf_prim g shippedCtx f (.int i) chk _ _ hres rfl rfl
+  · simp at h
+
+theorem F_leaves :
+    leafConf (.name nCatalog) (rawEnt shippedCat kType) = true ∧
+    leafConf (.name kPages) (rawEnt rootR kType) = true ∧ leafConf (.name kPages) (rawEnt nodeR kType) = true ∧
+    (∀ b, leafConf (.name nPage) (rawEnt (pageC b) kType) = true) ∧
+    (∀ b, leafConf (.name nTemplate) (rawEnt (tmplC b) kType) = true) ∧
+    intChk (rawEnt rootR kCount) = true ∧ intChk (rawEnt nodeR kCount) = true ∧
+    (∀ b, resolve shippedCtx (rawEnt (pageC b) kParent) = some (.any ⟨none, .required⟩)) ∧
+    resolve shippedCtx (rawEnt nodeR kParent) = some (.any ⟨none, .required⟩) := by decide +kernel
+
+
+theorem F_find :
+    findEnt (entsOf shippedCat) kPages = some (.required, rootR) ∧
+    findEnt (entsOf shippedCat) kType = some (.required, rawEnt shippedCat kType) ∧
+    findEnt (entsOf rootR) kType = some (.required, rawEnt rootR kType) ∧
+    findEnt (entsOf rootR) kCount = some (.required, rawEnt rootR kCount) ∧
+    findEnt (entsOf rootR) kKids = some (.required, kidsRR) ∧
+    findEnt (entsOf nodeR) kType = some (.required, rawEnt nodeR kType) ∧
+    findEnt (entsOf nodeR) kCount = some (.required, rawEnt nodeR kCount) ∧
+    findEnt (entsOf nodeR) kKids = some (.required, kidsNR) ∧
+    findEnt (entsOf nodeR) kParent = some (.required, rawEnt nodeR kParent) ∧
+    (∀ b, findEnt (entsOf (pageC b)) kType = some (.required, rawEnt (pageC b) kType) ∧
+          findEnt (entsOf (pageC b)) kParent = some (.required, rawEnt (pageC b) kParent) ∧
+          findEnt (entsOf (tmplC b)) kType = some (.required, rawEnt (tmplC b) kType)) := by decide +kernel
+
+theorem F_req :
+    ((entsOf shippedCat).toList.all fun e => e.2.1 != .required || [kPages, kType].contains e.1) = true ∧
+    ((entsOf rootR).toList.all fun e => e.2.1 != .required || [kCount, kKids, kType].contains e.1) = true ∧
+    ((entsOf nodeR).toList.all fun e => e.2.1 != .required || [kCount, kKids, kParent, kType].contains e.1) = true ∧
+    (∀ b, ((entsOf (pageC b)).toList.all fun e => e.2.1 != .required || [kParent, kType].contains e.1) = true) ∧
+    (∀ b, ((entsOf (tmplC b)).toList.all fun e => e.2.1 != .required || [kType].contains e.1) = true) := by
+  decide +kernel
+
+theorem isRef_dict (l : ObjL) : (Obj.dict l).isRef = false := rfl
+
+/-- the invariant is closed under one unfolding, for every graph in which the object numbers of the
+    document denote the rendered dictionaries -/
+theorem S_closed (g : Graph) (d : Doc) (hcat : d.cat = CatOpts.none)
+    (hplain : ∀ b p n, Sub d b p n → plainNode n)
+    (hroot : g.lookup (d.rootId, 0) = some (nodeDict d.count d.kids none))
+    (hlook : ∀ b p n, Sub d b p n → g.lookup (n.id, 0) = some (n.dict p)) :
+    ∀ o c, S d o c → ∀ f : Obj → Chk → Bool, (∀ o' c', S d o' c' → f o' c' = true) →
+      confStep g shippedCtx f o c = true := by
+  intro o c hS f hf
+  cases hS with
+  | cat =>
+    have hd : catalogDict d = .dict (dictOfList [(kPages, .ref d.rootId 0), (kType, .name nCatalog)]) := by
+      simp [catalogDict, hcat, CatOpts.none, optEnt, CatalogRules.namesDict, dictOfList]
+    rw [hd]
+    refine conf_dict g shippedCtx f _ .null shippedCat _ _ _ F_dicts.1 (value_nonref g _ rfl) rfl rfl
+      F_nodup.1 F_req.1 (hval_list f _ _ ?_)
+    intro kv hkv
+    simp only [List.mem_cons, List.not_mem_nil, or_false] at hkv
+    rcases hkv with rfl | rfl
+    · exact ⟨_, _, F_find.1, by decide, hf _ _ S.catPages⟩
+    · exact ⟨_, _, F_find.2.1, by decide, hf _ _ S.catType⟩
+  | catType => exact conf_leaf g f _ _ F_leaves.1 rfl
+  | catPages =>
+    have hv : value g (.ref d.rootId 0) = nodeDict d.count d.kids none := value_ref g _ _ _ hroot rfl
+    have hd : nodeDict d.count d.kids none =
+        .dict (dictOfList [(kCount, .int d.count), (kKids, .arr (arrOf d.kids.refs)), (kType, .name kPages)]) := rfl
+    refine conf_dict g shippedCtx f _ .null rootR _ _ _ F_dicts.2.1 (hv.trans hd) rfl rfl
+      F_nodup.2.1 F_req.2.1 (hval_list f _ _ ?_)
+    intro kv hkv
+    simp only [List.mem_cons, List.not_mem_nil, or_false] at hkv
+    rcases hkv with rfl | rfl | rfl
+    · exact ⟨_, _, F_find.2.2.2.1, by decide, hf _ _ S.rootCount⟩
+    · exact ⟨_, _, F_find.2.2.2.2.1, by decide, hf _ _ S.rootKids⟩
+    · exact ⟨_, _, F_find.2.2.1, by decide, hf _ _ S.rootType⟩
+  | rootType => exact conf_leaf g f _ _ F_leaves.2.1 rfl
+  | rootCount => exact conf_int g f _ _ F_leaves.2.2.2.2.2.1
+  | rootKids =>
+    refine conf_array g shippedCtx f _ kidsRR _ _ _ F_arrays.1 (value_nonref g _ rfl) rfl rfl ?_
+    intro x hx
+    rcases refs_vals d.kids x hx with ⟨n, hn, rfl⟩
+    exact hf _ _ (S.kid true d.rootId n (Sub.top n hn))
+  | kid b p n hsub =>
+    have hF := F_arrays.2.2.2 b
+    refine conf_disj g shippedCtx f _ (kidC b) _ _ (altFor b n) (F_arrays.2.2.1 b) rfl rfl ?_
+      (hf _ _ (S.alt b p n hsub))
+    cases n with
+    | page i o => exact hF.1
+    | tmpl i o => exact hF.2.1
+    | pages i c k => exact hF.2.2
+  | alt b p n hsub =>
+    have hl := hlook b p n hsub
+    have hpl := hplain b p n hsub
+    cases n with
+    | page i o =>
+      simp only [plainNode] at hpl
+      subst hpl
+      have hd : (Node.page i PageOpts.none).dict p =
+          .dict (dictOfList [(kParent, .ref p 0), (kType, .name nPage)]) := rfl
+      have hv : value g (.ref i 0) = _ := value_ref g _ _ _ hl rfl
+      refine conf_dict g shippedCtx f _ .null (pageC b) _ _ _ (F_dicts.2.2.2.1 b) (hv.trans hd) rfl rfl
+        (F_nodup.2.2.2.1 b) (F_req.2.2.2.1 b) (hval_list f _ _ ?_)
+      intro kv hkv
+      simp only [List.mem_cons, List.not_mem_nil, or_false] at hkv
+      rcases hkv with rfl | rfl
+      · exact ⟨_, _, (F_find.2.2.2.2.2.2.2.2.2 b).2.1, by decide, hf _ _ (S.pageParent b p)⟩
+      · exact ⟨_, _, (F_find.2.2.2.2.2.2.2.2.2 b).1, by decide, hf _ _ (S.pageType b)⟩
+    | tmpl i o =>
+      simp only [plainNode] at hpl
+      subst hpl
+      have hd : (Node.tmpl i PageOpts.none).dict p = .dict (dictOfList [(kType, .name nTemplate)]) := rfl
+      have hv : value g (.ref i 0) = _ := value_ref g _ _ _ hl rfl
+      refine conf_dict g shippedCtx f _ .null (tmplC b) _ _ _ (F_dicts.2.2.2.2 b) (hv.trans hd) rfl rfl
+        (F_nodup.2.2.2.2 b) (F_req.2.2.2.2 b) (hval_list f _ _ ?_)
+      intro kv hkv
+      simp only [List.mem_cons, List.not_mem_nil, or_false] at hkv
+      subst hkv
+      exact ⟨_, _, (F_find.2.2.2.2.2.2.2.2.2 b).2.2, by decide, hf _ _ (S.tmplType b)⟩
+    | pages i c k =>
+      have hd : (Node.pages i c k).dict p =
+          .dict (dictOfList [(kCount, .int c), (kKids, .arr (arrOf k.refs)), (kParent, .ref p 0),
+                             (kType, .name kPages)]) := rfl
+      have hv : value g (.ref i 0) = _ := value_ref g _ _ _ hl rfl
+      refine conf_dict g shippedCtx f _ .null (nodeAlt b) _ _ _ (F_dicts.2.2.1 b) (hv.trans hd) rfl rfl
+        F_nodup.2.2.1 F_req.2.2.1 (hval_list f _ _ ?_)
+      intro kv hkv
+      simp only [List.mem_cons, List.not_mem_nil, or_false] at hkv
+      rcases hkv with rfl | rfl | rfl | rfl
+      · exact ⟨_, _, F_find.2.2.2.2.2.2.1, by decide, hf _ _ (S.nodeCount c)⟩
+      · exact ⟨_, _, F_find.2.2.2.2.2.2.2.1, by decide, hf _ _ (S.nodeKids b p i c k hsub)⟩
+      · exact ⟨_, _, F_find.2.2.2.2.2.2.2.2.1, by decide, hf _ _ (S.nodeParent p)⟩
+      · exact ⟨_, _, F_find.2.2.2.2.2.1, by decide, hf _ _ S.nodeType⟩
+  | pageType b => exact conf_leaf g f _ _ (F_leaves.2.2.2.1 b) rfl
+  | pageParent b p => exact conf_any_ref g shippedCtx f _ _ _ _ (F_leaves.2.2.2.2.2.2.2.1 b) (by decide)
+  | tmplType b => exact conf_leaf g f _ _ (F_leaves.2.2.2.2.1 b) rfl
+  | nodeType => exact conf_leaf g f _ _ F_leaves.2.2.1 rfl
+  | nodeCount c => exact conf_int g f _ _ F_leaves.2.2.2.2.2.2.1
+  | nodeParent p => exact conf_any_ref g shippedCtx f _ _ _ _ F_leaves.2.2.2.2.2.2.2.2 (by decide)
+  | nodeKids b p i c kids hsub =>
+    refine conf_array g shippedCtx f _ kidsNR _ _ _ F_arrays.2.1 (value_nonref g _ rfl) rfl rfl ?_
+    intro x hx
+    rcases refs_vals kids x hx with ⟨n, hn, rfl⟩
+    exact hf _ _ (S.kid false i n (Sub.deep b p i c kids n hsub hn))
+
+
+/-! ### the rendered graph satisfies the lookup hypotheses -/
+
+theorem lookup_append : ∀ (a b : Graph) (k : Nat × Nat),
+    Graph.lookup (a ++ b) k = match Graph.lookup a k with | some v => some v | none => Graph.lookup b k
+  | [], b, k => by simp [Graph.lookup]
+  | (k', v) :: t, b, k => by
+    simp only [List.cons_append, Graph.lookup]
+    by_cases h : k' = k
+    · simp [h]
+    · simp only [h, if_false]; exact lookup_append t b k
+
+mutual
+theorem defs_notin : ∀ (n : Node) (p id : Nat), id ∉ n.ids → Graph.lookup (n.defs p) (id, 0) = none
+  | .page i o, p, id, h => by
+    have : i ≠ id := by intro e; apply h; simp [Node.ids, e]
+    simp [Node.defs, Graph.lookup, this]
+  | .tmpl i o, p, id, h => by
+    have : i ≠ id := by intro e; apply h; simp [Node.ids, e]
+    simp [Node.defs, Graph.lookup, this]
+  | .pages i c kids, p, id, h => by
+    have h1 : i ≠ id := by intro e; apply h; simp [Node.ids, e]
+    have h2 : id ∉ kids.ids := by intro e; apply h; simp [Node.ids, e]
+    simp only [Node.defs, Graph.lookup, Prod.mk.injEq, h1, false_and, if_false]
+    exact defss_notin kids i id h2
+theorem defss_notin : ∀ (ns : Nodes) (p id : Nat), id ∉ ns.ids → Graph.lookup (ns.defs p) (id, 0) = none
+  | .nil, p, id, _ => by simp [Nodes.defs, Graph.lookup]
+  | .cons n t, p, id, h => by
+    have h1 : id ∉ n.ids := by intro e; apply h; simp [Nodes.ids, e]
+    have h2 : id ∉ t.ids := by intro e; apply h; simp [Nodes.ids, e]
+    simp only [Nodes.defs, lookup_append, defs_notin n p id h1]
+    exact defss_notin t p id h2
+end
+
+theorem defs_self (n : Node) (p : Nat) : Graph.lookup (n.defs p) (n.id, 0) = some (n.dict p) := by
+  cases n <;> simp [Node.defs, Graph.lookup, Node.id, Node.dict]
+
+theorem id_mem_ids (n : Node) : n.id ∈ n.ids := by
+  cases n <;> simp [Node.id, Node.ids]
+
+theorem ids_sub : ∀ (ns : Nodes) (k : Node), k ∈ ns.toList → ∀ id ∈ k.ids, id ∈ ns.ids
+  | .nil, k, h, _, _ => by simp [Nodes.toList] at h
+  | .cons n t, k, h, id, hid => by
+    simp only [Nodes.toList, List.mem_cons] at h
+    simp only [Nodes.ids, List.mem_append]
+    rcases h with rfl | h
+    · exact Or.inl hid
+    · exact Or.inr (ids_sub t k h id hid)
+
+/-- below a node, the definitions of a kid are found as if the kid's subtree stood alone -/
+theorem kids_agree : ∀ (ns : Nodes) (p : Nat) (k : Node), ns.ids.Nodup → k ∈ ns.toList →
+    (∀ id ∈ k.ids, Graph.lookup (ns.defs p) (id, 0) = Graph.lookup (k.defs p) (id, 0)) ∧ k.ids.Nodup
+  | .nil, p, k, _, h => by simp [Nodes.toList] at h
+  | .cons n t, p, k, hnd, h => by
+    simp only [Nodes.ids, List.nodup_append] at hnd
+    simp only [Nodes.toList, List.mem_cons] at h
+    rcases h with rfl | h
+    · refine ⟨?_, hnd.1⟩
+      intro id hid
+      simp only [Nodes.defs, lookup_append]
+      cases hl : Graph.lookup (k.defs p) (id, 0) with
+      | some v => rfl
+      | none =>
+        have : id ∉ t.ids := fun e => hnd.2.2 id hid id e rfl
+        exact defss_notin t p id this
+    · have ih := kids_agree t p k hnd.2.1 h
+      refine ⟨?_, ih.2⟩
+      intro id hid
+      have hin : id ∈ t.ids := ids_sub t k h id hid
+      have : id ∉ n.ids := fun e => hnd.2.2 id e id hin rfl
+      simp only [Nodes.defs, lookup_append, defs_notin n p id this]
+      exact ih.1 id hid
+
+theorem sub_agree (d : Doc) (hcat : d.cat = CatOpts.none) (hnd : (d.rootId :: d.kids.ids).Nodup) :
+    ∀ b p n, Sub d b p n →
+      (∀ id ∈ n.ids, Graph.lookup d.graph (id, 0) = Graph.lookup (n.defs p) (id, 0)) ∧ n.ids.Nodup ∧
+      (∀ id ∈ n.ids, id ∈ d.kids.ids) := by
+  have hg : d.graph = ((d.rootId, 0), nodeDict d.count d.kids none) :: d.kids.defs d.rootId := by
+    simp [Doc.graph, hcat, CatOpts.none, CatalogRules.optDef]
+  simp only [List.nodup_cons] at hnd
+  intro b p n h
+  induction h with
+  | top n hn =>
+    have ka := kids_agree d.kids d.rootId n hnd.2 hn
+    refine ⟨?_, ka.2, ids_sub d.kids n hn⟩
+    intro id hid
+    have hin := ids_sub d.kids n hn id hid
+    have hne : d.rootId ≠ id := fun e => hnd.1 (e ▸ hin)
+    rw [hg]
+    simp only [Graph.lookup, Prod.mk.injEq, hne, false_and, if_false]
+    exact ka.1 id hid
+  | deep b p i c kids n _ hn ih =>
+    simp only [Node.ids, List.nodup_cons] at ih
+    have ka := kids_agree kids i n ih.2.1.2 hn
+    refine ⟨?_, ka.2, fun id hid => ih.2.2 id (by simp [Node.ids, ids_sub kids n hn id hid])⟩
+    intro id hid
+    have hin := ids_sub kids n hn id hid
+    have hne : i ≠ id := fun e => ih.2.1.1 (e ▸ hin)
+    rw [ih.1 id (by simp [Node.ids, hin])]
+    simp only [Node.defs, Graph.lookup, Prod.mk.injEq, hne, false_and, if_false]
+    exact ka.1 id hid
+
+theorem nodup_of_nodupB : ∀ l : List Nat, CatalogRules.nodupB l = true → l.Nodup
+  | [], _ => List.nodup_nil
+  | x :: t, h => by
+    simp only [CatalogRules.nodupB, Bool.and_eq_true, Bool.not_eq_true', List.contains_eq_mem,
+      decide_eq_false_iff_not] at h
+    exact List.nodup_cons.mpr ⟨h.1, nodup_of_nodupB t h.2⟩
+
+def PageOpts.isNone (o : PageOpts) : Bool :=
+  o.annots.isNone && o.cropBox.isNone && o.id.isNone && o.lastModified.isNone && o.mediaBox.isNone &&
+    o.rotate.isNone && o.tabs.isNone && o.userUnit.isNone
+
+def CatOpts.isNone (c : CatOpts) : Bool :=
+  c.lang.isNone && c.metadata.isNone && c.dests.isNone && c.embeddedFiles.isNone && c.needsRendering.isNone &&
+    c.openAction.isNone && c.outlines.isNone && c.pageLabels.isNone && c.pageLayout.isNone && c.pageMode.isNone &&
+    c.version.isNone
+
+theorem PageOpts.eq_none (o : PageOpts) (h : PageOpts.isNone o = true) : o = PageOpts.none := by
+  cases o
+  simp only [PageOpts.isNone, Bool.and_eq_true, Option.isNone_iff_eq_none] at h
+  simp only [PageOpts.none, PageOpts.mk.injEq]
+  simp [h]
+
+theorem CatOpts.eq_none (c : CatOpts) (h : CatOpts.isNone c = true) : c = CatOpts.none := by
+  cases c
+  simp only [CatOpts.isNone, Bool.and_eq_true, Option.isNone_iff_eq_none] at h
+  simp only [CatOpts.none, CatOpts.mk.injEq]
+  simp [h]
+
+mutual
+/-- no page or template of the subtree carries an optional entry -/
+def plainB : Node → Bool
+  | .page _ o => PageOpts.isNone o
+  | .tmpl _ o => PageOpts.isNone o
+  | .pages _ _ kids => plainsB kids
+def plainsB : Nodes → Bool
+  | .nil => true
+  | .cons n t => plainB n && plainsB t
+end
+
+theorem plains_mem : ∀ (ns : Nodes) (n : Node), plainsB ns = true → n ∈ ns.toList → plainB n = true
+  | .nil, n, _, h => by simp [Nodes.toList] at h
+  | .cons m t, n, hp, h => by
+    simp only [plainsB, Bool.and_eq_true] at hp
+    simp only [Nodes.toList, List.mem_cons] at h
+    rcases h with rfl | h
+    · exact hp.1
+    · exact plains_mem t n hp.2 h
+
+theorem sub_plain (d : Doc) (hp : plainsB d.kids = true) : ∀ b p n, Sub d b p n → plainNode n := by
+  have key : ∀ b p n, Sub d b p n → plainB n = true := by
+    intro b p n h
+    induction h with
+    | top n hn => exact plains_mem d.kids n hp hn
+    | deep b p i c kids n _ hn ih => exact plains_mem kids n (by simpa [plainB] using ih) hn
+  intro b p n h
+  have := key b p n h
+  cases n with
+  | page i o => exact PageOpts.eq_none o (by simpa [plainB] using this)
+  | tmpl i o => exact PageOpts.eq_none o (by simpa [plainB] using this)
+  | pages i c k => trivial
+
+/-- For EVERY well-formed document without optional entries -- any shape, fan-out and depth of the page tree,
+    any mix of pages, templates and inner nodes, any object numbers and /Count values -- the rendered catalog
+    conforms to the REGENERATED shipped specification (declarative reading: every unfolding depth).
+    FULL statement (not proved): the same for documents WITH optional entries from the menu of
+    Spec/CatalogRules.lean, and `¬ Conforms` for `mutate m d` for every valid single-rule mutation `m`. -/
+theorem rendered_conforms_partial (d : Doc) (hok : d.ok = true) (hcat : CatOpts.isNone d.cat = true)
+    (hplain : plainsB d.kids = true) :
+    Conforms (CatalogRules.render d).1 shippedCtx (CatalogRules.render d).2 shippedCat := by
+  have hcat := CatOpts.eq_none d.cat hcat
+  have hnd : (d.rootId :: d.kids.ids).Nodup := by
+    have := nodup_of_nodupB _ hok
+    simpa [Doc.ids, hcat, CatOpts.none, CatalogRules.optId] using this
+  have hg : d.graph = ((d.rootId, 0), nodeDict d.count d.kids none) :: d.kids.defs d.rootId := by
+    simp [Doc.graph, hcat, CatOpts.none, CatalogRules.optDef]
+  refine conforms_of_invariant _ shippedCtx (S d) (S_closed _ d hcat (sub_plain d hplain) ?_ ?_) _ _ S.cat
+  · show Graph.lookup d.graph (d.rootId, 0) = _
+    rw [hg]; simp [Graph.lookup]
+  · intro b p n h
+    have sa := sub_agree d hcat hnd b p n h
+    show Graph.lookup d.graph (n.id, 0) = _
+    rw [sa.1 n.id (id_mem_ids n)]
+    exact defs_self n p
+
+/-- non-vacuity: a three-level tree with inner nodes, pages and a template satisfies the hypotheses -/
+example : Conforms (CatalogRules.render wDoc3).1 shippedCtx (CatalogRules.render wDoc3).2 shippedCat :=
+  rendered_conforms_partial wDoc3 (by decide) (by decide) (by decide)
 
 /-! ### PART 4: witnesses of the engine findings that remain visible through the shipped specification
   (each is a corpus / generated case replayed on the real `check_type`) -/
